@@ -136,8 +136,13 @@ impl<'a> ExecutionEngine<'a> {
     pub fn execute(&mut self, line: String, config: &ExecutionConfig) -> ExecutionResult<ExecutionOutput> {
         match self.statement {
             Statement::Select(select_statement) => {
+                // Nothing is produced (and nothing evaluated) once the limit has been reached
+                if self.reached_limit() {
+                    return Ok(ExecutionOutput::empty().with_reached_limit());
+                }
+
                 let output = self.execute_select(&select_statement, line)?;
-                let output = self.update_limit(select_statement.limit, output);
+                let output = self.update_select_limit(select_statement.limit, output);
                 Ok(output)
             }
             Statement::Aggregate(aggregate_statement) => {
@@ -310,6 +315,32 @@ impl<'a> ExecutionEngine<'a> {
 
     fn execute_aggregate_result(&mut self, aggregate_statement: &AggregateStatement) -> ExecutionResult<ResultRow> {
         self.aggregate_execution_engine.execute_result(aggregate_statement)
+    }
+
+    /// True if a (non-aggregate) statement with LIMIT has already produced all its rows
+    pub fn reached_limit(&self) -> bool {
+        match self.statement {
+            Statement::Select(select_statement) => {
+                select_statement.limit.map(|limit| self.num_output_rows >= limit).unwrap_or(false)
+            }
+            _ => false
+        }
+    }
+
+    /// LIMIT n for non-aggregate statements: exactly the first n rows are produced, whatever they contain
+    fn update_select_limit(&mut self, limit: Option<usize>, mut output: ExecutionOutput) -> ExecutionOutput {
+        if let Some(limit) = limit {
+            if let Some(row) = output.result_row.as_mut() {
+                row.data.truncate(limit.saturating_sub(self.num_output_rows));
+                self.num_output_rows += row.data.len();
+            }
+
+            if self.num_output_rows >= limit {
+                output = output.with_reached_limit();
+            }
+        }
+
+        output
     }
 
     fn update_limit(&mut self, limit: Option<usize>, mut output: ExecutionOutput) -> ExecutionOutput {
